@@ -417,8 +417,8 @@ def cases(tier):
             for per in (False, True):
                 for fate in ('ok', 'temp', 'perm', 'killed', 'status255') + (('first-ok-rest-temp', 'first-ok-rest-killed', 'first-ok-rest-perm') if per and n > 1 else ()):
                     yield {'edge': edge, 'queue': 'proxy-pipe', 'chain': 'none', 'n': n, 'plan': {'pipe': fate, 'per_recipient': per}}
-        for chain in ('none', 'split', 'date+domainsplit'):
-            for n in (1, 2):
+        for chain in (('none', 'split', 'date+domainsplit') if tier == 'quick' else CHAINS):
+            for n in ((1, 2) if tier == 'quick' else (1, 2, 3)):
                 yield {'edge': edge, 'queue': 'queue-disk', 'chain': chain, 'n': n, 'plan': {}}
         from worlds.queue_world import QueueWorld
         for rk in ('smtp', 'lmtp', 'http'):
@@ -456,7 +456,7 @@ def run_config(cfg, tier, seed):
             elif obs['final']:
                 res.count('refused')
             return (obs['final'], obs['end'], repr(obs['at_final']))
-        st = explore(run, d=d, dd=None, merge=False, max_exec=500)
+        st = explore(run, d=d, dd=None, merge=False, max_exec=500 if case['queue'] != 'queue-disk' else 50000)
         res.add_stats(st)
         if case['queue'] == 'queue-disk' and not case['plan']:
             # every single failing request of the write path (temp file creation, each aio write, each rename answers ENOSPC)
@@ -465,7 +465,7 @@ def run_config(cfg, tier, seed):
                 res.count('plans')
                 res.count('disk_fault_plans')
                 res.interesting(repr(sorted(fcase.items())))
-                st2 = explore(lambda ch, fcase=fcase: run(ch, fcase), d=d, dd=None, merge=False, max_exec=500)
+                st2 = explore(lambda ch, fcase=fcase: run(ch, fcase), d=1, dd=None, merge=False, max_exec=5000)
                 res.add_stats(st2)
         if i % 300 == cfg['k']:
             res.sample({'case': case, 'executions': st.executions})
